@@ -12,6 +12,7 @@ import (
 	"sort"
 	"strings"
 	"sync"
+	"time"
 
 	"github.com/hashicorp/consul/agent/consul/fsm"
 	"github.com/hashicorp/consul/internal/verifmc/cmdlib"
@@ -49,6 +50,9 @@ type phase struct {
 func Run(c *ev.Ctx) {
 	quick := c.Quick()
 	child := os.Getenv("VERIF_C01_CHILD")
+	if os.Getenv("VERIF_EPOCH") == "" {
+		os.Setenv("VERIF_EPOCH", fmt.Sprint(time.Now().Unix())) // one instant for this process and its child replica
+	}
 	groups := cmdlib.FullAlphabet()
 	seedsAll := cmdlib.FullSeeds()
 
@@ -103,7 +107,7 @@ func Run(c *ev.Ctx) {
 			childOut = f.Name()
 			f.Close()
 			cmd = exec.Command(os.Args[0], "-id", "C01", "-tier", c.Tier)
-			cmd.Env = append(os.Environ(), "VERIF_C01_CHILD="+childOut, "VERIF_CLOCK_OFFSET=1000h", "VERIF_NO_EVIDENCE=1")
+			cmd.Env = append(os.Environ(), "VERIF_C01_CHILD="+childOut, "VERIF_CLOCK_OFFSET=1000h", "VERIF_NO_EVIDENCE=1", "VERIF_EPOCH="+os.Getenv("VERIF_EPOCH"))
 			cmd.Stdout, cmd.Stderr = nil, os.Stderr
 			if err := cmd.Start(); err != nil {
 				cmd = nil
@@ -116,6 +120,16 @@ func Run(c *ev.Ctx) {
 
 	for pi, ph := range phases {
 		alpha := cmdlib.Flatten(groups, ph.groups...)
+		switch ph.name {
+		case "acl-ca-misc", "full-d1":
+			// a token written by replication that expires 500 h from now: in the future for this replica, in
+			// the past for the one whose clock runs 1000 h ahead
+			alpha = append(alpha, cmdlib.TokenSetReplicated("t3", 500*time.Hour), cmdlib.TokenSetReplicated("t1", 24*time.Hour))
+		}
+		if ph.name == "config-catalog" {
+			// a resolver with several cross-datacenter failover entries, for a service that gets peer-exported
+			alpha = append(alpha, cmdlib.Resolver("web", cmdlib.ResolverOpt{Subsets: []string{"v1", "v2", "v3"}, FailoverBySubset: map[string][]string{"v1": {"dc2"}, "v2": {"dc3"}, "v3": {"dc4"}}}).Upsert())
+		}
 		var seeds [][]world.Op
 		for _, s := range ph.seeds {
 			seeds = append(seeds, seedsAll[s])
@@ -186,7 +200,9 @@ func Run(c *ev.Ctx) {
 			for k := range digests {
 				keys = append(keys, k)
 			}
-			sort.Slice(keys, func(i, j int) bool { return len(keys[i]) < len(keys[j]) || (len(keys[i]) == len(keys[j]) && keys[i] < keys[j]) })
+			sort.Slice(keys, func(i, j int) bool {
+				return len(keys[i]) < len(keys[j]) || (len(keys[i]) == len(keys[j]) && keys[i] < keys[j])
+			})
 			for _, k := range keys {
 				o, ok := other[k]
 				if !ok {
